@@ -63,7 +63,7 @@ def generate(rng, tier):
             out.append({'kind': 'to', 'wave': wave, 'value': value, 'wu': wu, 'vu': vu, 'units': tg, 'back': bool(rng.integers(0, 2))})
         elif t == 3:
             out.append({'kind': 'planck', 'temp': float(int(rng.integers(200, 12000))), 'wu': W[int(rng.integers(0, 4))], 'vu': F[int(rng.integers(0, 3))],
-                        'wave_nm': [float(int(x)) for x in sorted(rng.integers(150, 30000, 4))], 'alias': bool(rng.integers(0, 2))})
+                        'wave_nm': [float(int(x)) for x in sorted(rng.choice(np.arange(150, 30000), 4, replace=False))], 'alias': bool(rng.integers(0, 2))})
         else:
             if k % 10 == 4: out.append({'kind': 'laws', 'temp': float(int(rng.integers(1500, 9000)))})
             else: out.append({'kind': 'vega', 'band': BANDS[int(rng.integers(0, 12))], 'wu': W[int(rng.integers(0, 4))], 'vu': F[int(rng.integers(0, 3))]})
@@ -152,6 +152,7 @@ def impl(c):
 
 def requests(c, io):
     k = c['kind']
+    if '_harness_exc' in io: return []
     if k == 'wave':
         return [{'op': 'c14.wave_factor', 'a': x, 'b': y} for x, y in ((c['a'], c['b']), (c['b'], c['c']), (c['a'], c['c']), (c['a'], c['a']), (c['b'], c['a']))]
     if k == 'flux':
